@@ -476,7 +476,15 @@ def case_strategy():
             op = st.one_of(op, st.just(["runall", "ex"]))
         ops = st.lists(op, min_size=1, max_size=4)
         if may_shutdown:
-            ops = st.builds(lambda o, sd, w: o + ([["shutdown", "ex", w]] if sd else []), ops, st.booleans(), st.booleans())
+            # the (single) shutdown() is issued by this thread - or, now and then, from a done-callback it registers, i.e. from
+            # whichever library thread completes that future (wait=False then: a worker cannot wait for itself)
+            def with_sd(o, sd, w, via_cb, n):
+                if not sd:
+                    return o
+                if via_cb:
+                    return o + [["add_cb", n, "cbsd_%d_%s" % (tid, n), ["op", ["shutdown", "ex", False]]]]
+                return o + [["shutdown", "ex", w]]
+            ops = st.builds(with_sd, ops, st.booleans(), st.booleans(), st.sampled_from([False, False, True]), st.sampled_from(names))
         return ops
 
     @st.composite
